@@ -27,7 +27,8 @@ def history(inp):
     import oqupy
     ob = inp.get('obligation', '')
     info = inp.get('info') or {}
-    kinds = {'memo/consistent': 'memo', 'attrs/consistent': 'attrs', 'alias/copy-independent': 'alias', 'reuse/same-as-fresh': 'reuse'}
+    kinds = {'memo/consistent': 'memo', 'attrs/consistent': 'attrs', 'alias/copy-independent': 'alias', 'reuse/same-as-fresh': 'reuse',
+             'alias/deepcopy-independent': 'deepcopy'}
     kind = next((v for k, v in kinds.items() if ob.startswith(k)), None)
     classes = [info['class']] if info.get('class') else ['CustomSD', 'PowerLawSD', 'CustomCorrelations']
     bad, n = [], 0
@@ -37,7 +38,7 @@ def history(inp):
         attrs = [info['attribute']] if info.get('attribute') else list(_params(cls))
         for meth in meths:
             for attr in (attrs if kind != 'reuse' else [None]):
-                for k in ([kind] if kind else ['memo', 'attrs', 'alias', 'reuse']):
+                for k in ([kind] if kind else ['memo', 'attrs', 'alias', 'reuse', 'deepcopy']):
                     p = _params(cls)
                     o = C(**p)
                     n += 1
@@ -45,6 +46,11 @@ def history(inp):
                         getattr(o, 'eta_function' if (meth == 'correlation_2d_integral' and cls != 'CustomCorrelations') else meth)(0.7) \
                             if meth != 'correlation_2d_integral' or cls != 'CustomCorrelations' else o.correlation_2d_integral(0.2, 0.4)
                         got, want = _call(o, meth), _call(C(**p), meth)
+                    elif k == 'deepcopy':
+                        c2 = copy.deepcopy(o)
+                        v = _CHANGED[attr]
+                        setattr(o, attr, np.vectorize(v) if callable(v) else v)
+                        got, want = _call(c2, meth), _call(C(**p), meth)
                     elif k == 'alias':
                         b = oqupy.Bath(oqupy.operators.sigma('z'), o)
                         v = _CHANGED[attr]
@@ -355,4 +361,50 @@ def parameterized_system_reuse(inp):
 
 
 # thorough tier (bounded native sweeps): (function, inputs, obligation of the open finding it reproduces or None)
-THOROUGH = [('history', {}, None), ('arrays', {}, None), ('stored_arrays', {}, None), ('parameterized_system_reuse', {}, None)]
+THOROUGH = [('history', {}, None), ('arrays', {}, None), ('stored_arrays', {}, None), ('parameterized_system_reuse', {}, None), ('pt_tebd_snapshot', {}, None)]
+
+
+def pt_tebd_snapshot(inp):
+    """a PtTebd object answers for the parameters and the chain it was BUILT with: the caller changes parameters.dt / epsrel / order
+    (public setters) or extends the chain (add_site_hamiltonian) after construction -- before the first compute() and between two
+    compute() calls -- and times and states must equal those of an untouched run"""
+    import oqupy
+    from oqupy import operators as op
+    sx, sz = op.sigma('x'), op.sigma('z')
+
+    def chain_():
+        chain = oqupy.SystemChain([2, 2])
+        chain.add_site_hamiltonian(0, 0.3 * sx)
+        chain.add_site_hamiltonian(1, 0.3 * sx)
+        chain.add_nn_hamiltonian(0, 0.4 * sz, sz)
+        return chain
+
+    def make(parameters, chain=None):
+        mps = oqupy.AugmentedMPS([op.spin_dm('z+'), op.spin_dm('x+')])
+        return oqupy.PtTebd(mps, chain or chain_(), [None, None], parameters, dynamics_sites=[0])
+    ref = make(oqupy.PtTebdParameters(dt=0.1, order=2, epsrel=1e-8)).compute(6, progress_type='silent')
+    rt, rs = np.array(ref['time']), ref['dynamics'][0].states
+    bad = []
+
+    def compare(label, res):
+        t, s = np.array(res['time']), res['dynamics'][0].states
+        dt_ = float(np.abs(t - rt).max()) if len(t) == len(rt) else float('inf')
+        ds = float(np.abs(s - rs).max()) if s.shape == rs.shape else float('inf')
+        if dt_ > 1e-12 or ds > 1e-9:
+            bad.append({'history': label, 'times deviate by': dt_, 'states deviate by': ds, 'times': [round(float(x), 6) for x in t]})
+    for attr, val in (('dt', 0.3), ('order', 1), ('epsrel', 1e-2)):
+        par = oqupy.PtTebdParameters(dt=0.1, order=2, epsrel=1e-8)
+        tebd = make(par)
+        tebd.compute(3, progress_type='silent')
+        setattr(par, attr, val)
+        compare('compute(3); parameters.%s = %r; compute(6)' % (attr, val), tebd.compute(6, progress_type='silent'))
+        par = oqupy.PtTebdParameters(dt=0.1, order=2, epsrel=1e-8)
+        tebd = make(par)
+        setattr(par, attr, val)
+        compare('PtTebd(...); parameters.%s = %r; compute(6)' % (attr, val), tebd.compute(6, progress_type='silent'))
+    par = oqupy.PtTebdParameters(dt=0.1, order=2, epsrel=1e-8)
+    chain = chain_()
+    tebd = make(par, chain)
+    chain.add_site_hamiltonian(0, 2.0 * sz)
+    compare('PtTebd(...); chain.add_site_hamiltonian(0, ..); compute(6)', tebd.compute(6, progress_type='silent'))
+    return {'violates': bool(bad), 'detail': bad[:4]}
